@@ -19,7 +19,9 @@ KINDS = {
     "var_all": dict(kind="var", vmin=True, vmax=True, allowed=3),
 }
 CONTEXTS = ["none", "worker", "precedence", "select", "cumulative", "buffer", "objective", "optional_constraint",
-            "second_task_first", "after_first_solver", "after_first_solve_and_export"]
+            "second_task_first", "after_first_solver", "after_first_solve_and_export",
+            # the task is only named by constraints that are operands of a connective (never asserted on their own)
+            "either_order", "negated_precedence", "implied_rule", "if_then_else_rules"]
 
 
 def _context(P, ctx, ti, what):
@@ -52,6 +54,19 @@ def _context(P, ctx, ti, what):
         ps.IndicatorTardiness() if ti.due is not None else None
     elif what == "optional_constraint":
         ps.TaskStartAt(task=ti.obj, value=3, optional=True)
+    elif what == "either_order":
+        other = ps.FixedDurationTask(name="O", duration=2)
+        ps.Or(list_of_constraints=[ps.TaskPrecedence(task_before=ti.obj, task_after=other), ps.TaskPrecedence(task_before=other, task_after=ti.obj)])
+    elif what == "negated_precedence":
+        other = ps.FixedDurationTask(name="O", duration=2)
+        ps.Not(constraint=ps.TaskPrecedence(task_before=ti.obj, task_after=other, offset=1))
+    elif what == "implied_rule":
+        other = ps.FixedDurationTask(name="O", duration=2)
+        ps.Implies(condition=z3.Bool("cond"), list_of_constraints=[ps.TaskPrecedence(task_before=ti.obj, task_after=other), ps.TaskEndBefore(task=ti.obj, value=40)])
+    elif what == "if_then_else_rules":
+        other = ps.FixedDurationTask(name="O", duration=2)
+        ps.IfThenElse(condition=z3.Bool("cond"), then_list_of_constraints=[ps.TaskPrecedence(task_before=ti.obj, task_after=other)],
+                      else_list_of_constraints=[ps.TasksStartSynced(task_1=ti.obj, task_2=other)])
 
 
 def _shape(kname, optional, release, due, horizon, context, cfg=None):
